@@ -249,7 +249,7 @@ func VerifC14_CodecRoundTripGMessage() {
 // VerifC14_DecodeHostileGMessage: arbitrary bytes into the decoders: an error
 // or a value, never a panic, never an allocation beyond the documented limits.
 func VerifC14_DecodeHostileGMessage() {
-	n := 1 + sym.Choice("len-minus-1", 2+sym.Tier())
+	n := 1 + sym.Choice("len-minus-1", 2)
 	data := sym.Bytes("data", n)
 	sym.AllocLimit(1 << 20)
 	var m GMessage
